@@ -70,6 +70,16 @@ def load_known_findings():
         return json.load(fp)["findings"]
 
 
+def _memtrace(name):
+    """development aid: VERIF_MEMTRACE=1 prints the resident set size after every obligation (stderr)"""
+    if os.environ.get("VERIF_MEMTRACE"):
+        try:
+            rss = int(open("/proc/self/statm").read().split()[1]) * 4096 / 1e9
+            sys.stderr.write("MEMTRACE %-70s rss %.2f GB  t=%.0f\n" % (name[:70], rss, time.time() % 100000))
+        except OSError:
+            pass
+
+
 class Session:
     def __init__(self, pid, tier="quick", seed=0, level="proof"):
         self.pid, self.tier, self.seed, self.level = pid, tier, seed, level
@@ -178,6 +188,7 @@ class Session:
         agrees with the oracle the obligation is recorded as a BOUNDED stand-in for this run (labelled so, never counted as discharged) instead of undecided."""
         self.under_contract(*functions)
         r = self._run(name, fn)
+        _memtrace(name)
         if fallback is not None and r.status == UNKNOWN:
             t = time.time()
             try:
@@ -257,6 +268,7 @@ class Session:
         """Record a bounded stand-in (run-time contracts on the real function). failures: list of dicts
         {"witness_id":..., "input":..., "observed":..., "expected":...}; never counted as discharged."""
         self.under_contract(*functions)
+        _memtrace(name)
         self.bounded.append({"name": name, "label": "bounded", "bound": bound, "evaluations": evaluations,
                              "distinct_nontrivial": distinct, "failures": len(failures), "functions": list(functions)})
         for f in failures:
